@@ -106,7 +106,7 @@ func main() {
 	maxPaths := fs.Int("max-paths", 1<<30, "path limit per harness")
 	timeLimit := fs.Int("time-limit-s", 0, "wall limit per harness (0 = none)")
 	unwind := fs.Int("unwind", 64, "symbolic unwinding limit per branch site and frame")
-	maxSteps := fs.Int64("max-steps", 200_000_000, "instruction budget per path")
+	maxSteps := fs.Int64("max-steps", 30_000_000, "instruction budget per path")
 	file := fs.String("file", "", "replay file")
 	verbose := fs.Bool("v", false, "verbose")
 	trace := fs.Bool("trace", false, "trace instructions (replay)")
